@@ -320,7 +320,8 @@ def render_types(types, out, ind=1):
         out.append("%s</sectiontype>" % pad)
 
 
-def render_schema(ir, extends=None, imports=(), types=None, top=True):
+def render_schema(ir, extends=None, imports=(), types=None, top=True,
+                  imports_after=()):
     """XML of the schema.  *types* restricts the rendered types (for splitting
     over several resources); *imports* is a list of ('src', ref) /
     ('package', name[, file]) tuples."""
@@ -338,6 +339,13 @@ def render_schema(ir, extends=None, imports=(), types=None, top=True):
                 b.append(("file", imp[2]))
             out.append("  <import%s/>" % _attrs(b))
     render_types(ir["types"] if types is None else types, out)
+    for imp in imports_after:
+        # (components that implement abstract types of this schema are
+        # imported after those types are defined)
+        b = [("package", imp[1])]
+        if len(imp) > 2 and imp[2]:
+            b.append(("file", imp[2]))
+        out.append("  <import%s/>" % _attrs(b))
     if top:
         for it in ir["top"]:
             _render_item(it, out, 1)
